@@ -78,6 +78,16 @@ CHECKS = {
         "technique": SIM + "metamorphic comparison of two replays (with / without back-to-back duplication)",
         "design_ref": "DESIGN.md §5 C16",
     },
+    "C17": {
+        "text": "Seeded search over shutdown instants: AsyncZeroconf.async_close() injected at a seed-chosen loop-iteration "
+                "index or instant (probing, announcing, queued answers, deferred truncated queries, browser start-up and "
+                "refresh timers, pending lookups, purge timer all in flight), or Zeroconf.close() from a cooperatively "
+                "modelled non-loop thread; followed by up to 2 h of virtual time with incoming traffic and a second "
+                "close. Oracle: no transmission and no callback after close returned, nothing in the loop exception "
+                "handler for the whole run, three complete goodbyes for everything registered, idempotent second close.",
+        "technique": SIM + "crash-point style injection of close at arbitrary event indices, trace/callback oracle",
+        "design_ref": "DESIGN.md §5 C17",
+    },
     "C05": {
         "text": "Seeded search over response-datagram histories (repeats, refreshes, goodbyes, cache-flush, re-cased names) "
                 "and clock steps around the 1 s flush window, TTL expiry and the 10 s purge, driven through the real "
